@@ -7,7 +7,7 @@ import io
 from collections import OrderedDict
 
 from .. import coqbuild, irtools as T
-from ..common import GLOBAL_TRUSTED_BASE
+from ..common import CORPUS_SEED, GLOBAL_TRUSTED_BASE
 from .. import sqltie
 from ..model import call_many
 from ..pool import guarded, run_cases
@@ -100,23 +100,29 @@ def cols(ir):
 
 
 def check_case(ir):
+    """-> (items, emissions, loci): every item carries det["locus"] = "<variant/style/force>|<parameter or ->"; [loci] lists every locus
+    that was evaluated (for the fixed corpus: a locus without item is a clean entry)"""
     items, n = [], 0
+    loci = []
+    pnames = [k for k in ir["params"] if k != "id"]
     for style in STYLES:
         for force in (False, True):
             outs = {}
+            loci.append("variants/%s/%s|-" % (style, "force" if force else "noforce"))
             for v in VARIANTS:
                 tag = "%s/%s/%s" % (v, style, "force" if force else "noforce")
+                loci += ["%s|%s" % (tag, pn) for pn in pnames + ["-"]]
                 try:
                     src, out, hp = emit_and_parse(v, ir, style, force)
                 except Exception as e:  # noqa
-                    items.append(("C05/%s/raises/%s" % (tag, type(e).__name__), {"error": str(e)[:120]}))
+                    items.append(("C05/%s/raises/%s" % (tag, type(e).__name__), {"error": str(e)[:120], "locus": tag + "|-"}))
                     continue
                 n += 1
                 if hp not in (None, "ok"):
-                    items.append(("C05/%s/hybrid-parser-raises/%s" % (v, hp), {"config": tag}))
+                    items.append(("C05/%s/hybrid-parser-raises/%s" % (v, hp), {"config": tag, "locus": None}))
                 k = count_pks(src)
                 if k != 1:
-                    items.append(("C05/%s/primary-keys-%s" % (tag, "none" if k == 0 else "several"), {"count": k, "source": src[:400]}))
+                    items.append(("C05/%s/primary-keys-%s" % (tag, "none" if k == 0 else "several"), {"count": k, "source": src[:400], "locus": tag + "|-"}))
                 outs[v] = out
                 # round trip vs the description (+ the primary key that ensure_has_primary_key adds)
                 for cls, det in T.compare(strip_pk(ir), strip_pk(out)):
@@ -126,14 +132,14 @@ def check_case(ir):
                             continue        # the forced / inferred surrogate key is the documented normalisation
                     # a column called `id` is taken for the surrogate key and re-typed: its own family of classes
                     idc = "/id-column" if det.get("param") == "id" else ""
-                    items.append(("C05/roundtrip/%s%s" % (cls, idc), dict(det, config=tag)))
+                    items.append(("C05/roundtrip/%s%s" % (cls, idc), dict(det, config=tag, locus="%s|%s" % (tag, det.get("param") if det.get("param") in pnames else "-"))))
                 # Enum members keep their order (the generic comparison treats Literal members as a set)
                 for k, p_in in strip_pk(ir)["params"].items():
                     p_out = (strip_pk(out).get("params") or {}).get(k)
                     ta, tb = p_in.get("typ") or "", (p_out or {}).get("typ") or ""
                     ma, mb = re.findall(r"'([^']*)'", ta), re.findall(r"'([^']*)'", tb)
                     if "Literal[" in ta and "Literal[" in tb and sorted(ma) == sorted(mb) and ma != mb:
-                        items.append(("C05/roundtrip/param/literal-member-order", {"param": k, "in": ta, "out": tb, "config": tag}))
+                        items.append(("C05/roundtrip/param/literal-member-order", {"param": k, "in": ta, "out": tb, "config": tag, "locus": "%s|%s" % (tag, k)}))
             # interchangeability: the three emissions of one interface parse to the same columns
             keys = [v for v in VARIANTS if v in outs]
             for a, b in zip(keys, keys[1:]):
@@ -143,24 +149,30 @@ def check_case(ir):
                         "typ" if [c[1] for c in cols(outs[a])] != [c[1] for c in cols(outs[b])] else \
                         "default" if [c[2] for c in cols(outs[a])] != [c[2] for c in cols(outs[b])] else "doc"
                     items.append(("C05/variants-disagree/%s-vs-%s/%s/%s/%s" % (a, b, style, "force" if force else "noforce", what),
-                                  {"diff": diff, a: cols(outs[a]), b: cols(outs[b])}))
-    return items, n
+                                  {"diff": diff, a: cols(outs[a]), b: cols(outs[b]), "locus": "variants/%s/%s|-" % (style, "force" if force else "noforce")}))
+    return items, n, loci
 
 
 def worker(batch):
     from cdd.sqlalchemy.utils.emit_utils import ensure_has_primary_key
-    out = {"n": 0, "emissions": 0, "items": [], "corr": []}
+    out = {"n": 0, "emissions": 0, "items": [], "corr": [], "corpus_keys": []}
     pkq, pki = [], []
     for ir in batch:
+        cid = None
+        if isinstance(ir, tuple):       # an entry of the fixed corpus
+            cid, ir = ir
         out["n"] += 1
         st, v = guarded(check_case, ir, 120)
         if st != "ok":
             out["items"].append(("C05/harness/" + st, {"detail": v}, ir))
             continue
-        items, n = v
+        items, n, loci = v
         out["emissions"] += n
+        if cid:
+            out["corpus_keys"] += ["%s|%s" % (cid, l) for l in loci]
         for cls, det in items:
-            out["items"].append((cls, det, ir))
+            ck = "%s|%s" % (cid, det["locus"]) if cid and isinstance(det, dict) and det.get("locus") else None
+            out["items"].append((cls, dict(det, corpus_key=ck), ir))
         for force in (False, True):
             pkq.append([force, [[k, p.get("doc", "")] for k, p in ir["params"].items()]])
             try:
@@ -177,14 +189,19 @@ def worker(batch):
 def collect(ctx, n_ir, _unused=0):
     rng = ctx.rng
     irs = [gen_ir(rng) for _ in range(n_ir)]
+    import random as _random
+    crng = _random.Random(CORPUS_SEED)
+    corpus_irs = [("c%d" % i, gen_ir(crng)) for i in range(300)]
+    irs_all = corpus_irs[: (20 if n_ir < 200 else 300)] + irs
     agg = {"n": 0, "emissions": 0}
     items, corr = [], []
-    for r in run_cases(worker, [irs[i:i + 5] for i in range(0, len(irs), 5)], chunk=1):
+    for r in run_cases(worker, [irs_all[i:i + 5] for i in range(0, len(irs_all), 5)], chunk=1):
         if "harness_error" in r:
             items.append(("C05/harness/error", {"detail": r}, None))
             continue
-        for k in agg:
+        for k in [k_ for k_ in agg if k_ != "corpus_keys"]:
             agg[k] += r[k]
+        agg.setdefault("corpus_keys", []).extend(r.get("corpus_keys", []))
         items += r["items"]
         corr += r["corr"][:3]
     return agg, items, corr, irs
@@ -195,7 +212,7 @@ def run(ctx):
     agg, items, corr, irs = collect(ctx, 50 if ctx.quick else 2100)
     for cls, det, ir in items:
         ctx.item(cls, {"stage": "emit -> source -> parse of the three SQLAlchemy variants", "clause": cls, "input": T.jsonable(ir) if ir else None,
-                       "detail": det})
+                       "detail": det}, corpus_key=det.get("corpus_key") if isinstance(det, dict) else None)
     n_cols, col_bad = sqltie.compare([sqltie.gen(ctx.rng) for _ in range(600 if ctx.quick else 20000)])
     corr += col_bad[:3]
     if not ctx.violations:
